@@ -188,7 +188,6 @@ func (m *Muxer) WriteData(d *MuxerData) (int, error) {
 		pktLen := 1 + mpegTsPacketHeaderSize // sync byte + header
 		pkt := Packet{
 			Header: PacketHeader{
-				ContinuityCounter:         uint8(ctx.cc.inc()),
 				HasAdaptationField:        writeAf,
 				HasPayload:                false,
 				PayloadUnitStartIndicator: false,
@@ -254,6 +253,9 @@ func (m *Muxer) WriteData(d *MuxerData) (int, error) {
 					pkt.AdaptationField.StuffingLength = bytesAvailable
 				}
 			}
+
+			// The continuity counter only advances for a packet that is actually written
+			pkt.Header.ContinuityCounter = uint8(ctx.cc.inc())
 
 			n, err = writePacket(m.bitsWriter, &pkt, m.packetSize)
 			if err != nil {
